@@ -35,6 +35,7 @@ def guarded_replay(fn, payload):
     pid = os.fork()
     if pid == 0:
         os.close(r)
+        os.setsid()          # helpers the replay starts (e.g. multiprocessing managers) are cleaned up with it
         os.environ["TMPDIR"] = tmp
         try:
             out = fn(payload)
@@ -52,24 +53,34 @@ def guarded_replay(fn, payload):
     buf = b""
     end = time.time() + limit
     timed_out = False
+    exited = False
     while True:
         left = end - time.time()
         if left <= 0:
             timed_out = True
             break
-        rd, _, _ = select.select([r], [], [], min(left, 5))
+        rd, _, _ = select.select([r], [], [], min(left, 1))
         if rd:
             chunk = os.read(r, 65536)
             if not chunk:
                 break
             buf += chunk
+            continue
+        if exited:
+            break            # the child is gone and nothing more is readable (a helper may still hold the pipe open)
+        done, _st = os.waitpid(pid, os.WNOHANG)
+        if done == pid:
+            exited = True
     os.close(r)
-    if timed_out:
+    try:
+        os.killpg(pid, signal.SIGKILL)      # the child (if it still runs) and whatever it started
+    except OSError:
+        pass
+    if not exited:
         try:
-            os.kill(pid, signal.SIGKILL)
+            os.waitpid(pid, 0)
         except OSError:
             pass
-    os.waitpid(pid, 0)
     shutil.rmtree(tmp, ignore_errors=True)
     if timed_out:
         return bool(payload.get("expect_hang")), ("the replay on the real code did not return within %d s and was "
